@@ -10,8 +10,8 @@ ORACLE = ('exact integer arithmetic on mantissas shifted by their exponent bytes
           '2^-bias): X = mx << ex, Y = my << ey, R = mr << er; |R - (X +/- Y)| <= 2 << er for '
           '+/-; for * the exact product P = mx*my is compared at the result scale: '
           '|(mr << s) - P| < 1 << s with s = er - ex - ey + bias; for x / 2^k the quotient is exact')
-BOUNDS = {'operands': 'thorough: all pairs of bit patterns (single: 2^64 pairs, double: 2^128 pairs), '
-                      'split by exponent difference; quick: single precision only, + and - for the '
+BOUNDS = {'operands': 'thorough: all pairs of single bit patterns (2^64 pairs, every exponent difference) and '
+                      'double pairs for 14 values/ranges of the exponent difference incl. both far regimes; quick: single precision only, + and - for the '
                       'exponent differences listed in the case names (all mantissas, signs, exponents)',
           'division': 'zero divisor and divisors that are powers of two (all 255 exponents x both '
                       'signs) for every dividend; the general quotient bound needs loop-invariant '
@@ -251,6 +251,12 @@ def cases(tier):
             hi = lo if -4 <= lo <= 3 else min(lo + step - 1, D, -5 if lo < -4 else D)
             ranges.append((lo, hi))
             lo = hi + 1
+        if thorough and t == 'd':
+            # doubles: both far regimes and a spread of near exponent differences (every d for
+            # doubles is ~130 cases x 2 operators of several minutes each; not run routinely)
+            keepd = {(-255, -D - 1), (D + 1, 255), (D, D), (-D, -D + 1), (-4, -4), (-1, -1), (0, 0),
+                     (1, 1), (2, 2), (8, 9), (-34, -33), (32, 33), (56, 57), (-58, -57)}
+            ranges = [r for r in ranges if r in keepd]
         if not thorough:
             # quick: both far regimes and a spread of near exponent differences
             keep = {(-255, -D - 1), (D + 1, 255), (D, D), (-D, -D + 3), (28, 31), (-4, -4), (-1, -1),
